@@ -1,5 +1,6 @@
 (* Extraction of the C01/C02 models: record merge at int level (compared with the static sc_notify_merge) and the
    per-rank programs of the notify algorithms (co-simulated against the traces of the real code). *)
 From Coq Require Import Extraction ExtrOcamlBasic ZArith.
-From ScV Require Import Base.CInt MPI.Prog Gen.Consts Gen.NotifyC01 C01.MergeModel C01.NotifyProgs.
-Extraction "c01_model.ml" notify_merge decode encode rmerge live notify_prog censusv_core K_RSB K_RMA.
+From ScV Require Import Base.CInt MPI.Prog Gen.Consts Gen.NotifyC01 C01.MergeModel C01.NotifyProgs C01.Reconfig.
+Extraction "c01_model.ml" notify_merge decode encode rmerge live notify_prog censusv_core K_RSB K_RMA obj_run obj_obs obj_round_hist.
+
